@@ -334,3 +334,38 @@ PROPS["C16"] = dict(
     assumptions=COMMON_ASSUMPTIONS + ["hook H1 (cfg sourcemap_verif): three yield points in SourceView::get_line calling a thread-local callback; add-only, no-op without a callback"],
 )
 HOOK_COMMITS.append("59fd72d")
+
+def _corrupt_c13(e):
+    o = e["out"]
+    if e["op"] in ("add_source", "add_name"):
+        o["ret"] += 1
+        return True
+    if e["op"] in ("add", "add_raw"):
+        o["ret"][2] += 1
+        return True
+    if o.get("obs"):
+        ob = o["obs"][0]
+        if ob["sources"]:
+            ob["sources"][0] = ob["sources"][0] + [120]
+        else:
+            ob["doc_root"] = [[120]]
+        return True
+    return False
+
+PROPS["C13"] = dict(
+    level="model_checking",
+    level_text="Builder.tla is the interning model: every builder / map call is a function state x call -> (state, return value). TLC explores every history of <= Depth builder calls + into_sourcemap + <= MapDepth map setter calls over pools with duplicate, empty, absolute and URL strings and roots with/without trailing '/', checking that interning tables never hold duplicates, ids are stable and tokens always resolve. Every history is executed call by call on a real SourceMapBuilder / SourceMap and the STATEFUL trace spec steps the model with each recorded call, comparing returned ids / raw tokens and, once the map exists, the full observation after every call: sources = raw joined with the current root, serialised sources = raw names, sourceRoot = root, also across save/load cycles.",
+    level_note="set_source on the builder and load_local_source_contents are outside the quantified call set",
+    technique="TLA+ interning state machine, TLC exhaustive over call histories, stateful trace validation of real builder/map calls",
+    mc=[
+        dict(module="MC_Builder", cfg="MC_Builder_quick.cfg", tiers=("quick",), workers=8),
+        dict(module="MC_Builder", cfg="MC_Builder_thorough.cfg", tiers=("thorough",), workers=14, timeout=3400, heap="24g"),
+    ],
+    trace="Trace_C13",
+    drive=dict(quick=dict(n=400, size=3), thorough=dict(n=8000, size=8)),
+    nontrivial=lambda e: e["op"] not in ("set_file", "set_debug_id"),
+    corrupt=_corrupt_c13,
+    corruptible=lambda e: e["op"] in ("add_source", "add_name", "add", "add_raw") or bool(e["out"].get("obs")),
+    rule="cases: every history of MC_Builder (Depth builder calls from ~40 enabled calls, into_sourcemap, MapDepth map calls from ~25) ; seeded histories of up to ~100 builder calls over pools of 15 sources / 7 roots / 7 names followed by up to ~30 map setter / saveload calls; distinct = distinct (call, position in history); non-trivial = any call other than set_file/set_debug_id",
+    assumptions=COMMON_ASSUMPTIONS,
+)
